@@ -5202,7 +5202,7 @@ class Arc(Curve):
             and self.prx == other.prx
             and self.pry == other.pry
             and self.center == other.center
-            and self.sweep == other.sweep
+            and abs(self.sweep - other.sweep) <= ERROR
         )
 
     def __ne__(self, other):
